@@ -1094,6 +1094,8 @@ class Engine(object):
             return obj
         if isinstance(fn, ExcClass):
             return PyExc(fn.name, args[0] if args else '')
+        if isinstance(fn, Obj) and fn.cls is not None and fn.cls.lookup('__call__') is not None:
+            return self.call(fn.cls.lookup('__call__'), [fn] + list(args), kwargs)
         raise Unsupported('call of %r' % (fn,))
 
     def bind_args(self, a, args, kwargs, frame, defaults_frame):
@@ -1157,6 +1159,8 @@ class Engine(object):
                 v = obj.globals[name]
                 if isinstance(v, _Poison):
                     raise Unsupported('name %s unavailable: %s' % (v.name, v.why))
+                if isinstance(v, library.PiVal):
+                    return library.pi_term(self)
                 return v
             raise Unsupported('module attribute %s.%s' % (obj.name, name))
         if isinstance(obj, ClassVal):
